@@ -83,17 +83,17 @@ def quantifier(self, n, env):
   bvs = []
   guards = []
   for nm, s in zip(names, sorts):
-    c = s.const(nm)
+    c = z3.Const(fresh_name(nm), s.z3())  # a genuine bound variable (never a skolem term)
     bvs.append(c)
     e.set(nm, SV(s, c))
     guards.extend(s.wf(c))
   saved = self.spec_mode
   self.spec_mode = True
-  self.bound_vars.extend(bvs)
+  self.push_binders(bvs)
   try:
     body = self.truthy(self.eval(lam.body, e))
   finally:
-    del self.bound_vars[-len(bvs):]
+    self.pop_binders(len(bvs))
     self.spec_mode = saved
   pats = []
   for kw in n.keywords:
@@ -198,7 +198,7 @@ def define_specfn(self: Exec, sf: C.SpecFn):
     return self._defined_specfns[sf.name]
   decl = z3.Function(sf.name, *[s.z3() for s in sf.argsorts], sf.ret.z3())
   self._defined_specfns[sf.name] = decl
-  consts = [s.const(p) for p, s in zip(sf.params, sf.argsorts)]
+  consts = [z3.Const(fresh_name(p), s.z3()) for p, s in zip(sf.params, sf.argsorts)]
   e = Env(None)
   for p, s, c in zip(sf.params, sf.argsorts, consts):
     e.set(p, SV(s, c))
@@ -206,15 +206,23 @@ def define_specfn(self: Exec, sf: C.SpecFn):
   self.spec_mode = True
   saved_pc = self.pc
   self.pc = []
+  saved_bv = list(self.bound_vars)
+  from . import sorts as _s
+  saved_B = list(_s.BINDERS)
+  del self.bound_vars[:]
+  del _s.BINDERS[:]
+  self.push_binders(consts)
   try:
     body = self.coerce(self.eval(sf.body, e), sf.ret)
-    side = list(self.pc)  # defining axioms of derived values created while evaluating the body
+    side = list(self.pc)  # defining axioms of derived values created while evaluating the body (closed over the parameters)
     extra = [self.truthy(self.eval(ast.parse(a, mode='eval').body, e)) for a in sf.axioms]
   finally:
+    self.pop_binders(len(consts))
+    self.bound_vars.extend(saved_bv)
+    _s.BINDERS.extend(saved_B)
     self.pc = saved_pc
     self.spec_mode = saved
-  if side:
-    raise OutsideSubset(f'spec function {sf.name}: body builds derived containers (not supported)')
+  self.axioms.extend(side)
   app = decl(*consts)
   # alternative triggers: recursive applications and selects in the body that mention every
   # bound variable let a fact about a sub-structure unfold the definition "upwards" as well
